@@ -50,7 +50,7 @@ CHECKS = {
    "staleness within 1 s of N (and within the failure's latency) is not judged", "DESIGN.md 4 C13"),
  "C14": T("exploration", "model-based runtime checking: every result of Set/Get/Delete/Keys (and of the maintenance HTTP handlers) compared with an in-harness map over adversarial key sets and backend configurations incl. reopen; porcupine linearizability check for concurrent memory-backend histories; disjoint-key concurrency on fs under the race detector",
    "Any result that differs from the map (wrong bytes, error on a legal key, missing ErrNotExist, wrong listing, aliasing with caller buffers) is a violation.",
-   "keys up to 1000 bytes; keys not addressable through an HTTP path segment are not judged via the API", "DESIGN.md 4 C14"),
+   "keys up to about 6 kB (deeper than PATH_MAX); keys not addressable through an HTTP path segment are not judged via the API", "DESIGN.md 4 C14"),
  "C15": T("fault_enumeration", "porcupine linearizability checking of recorded concurrent fs histories with self-describing values (race detector on); child processes whose writes are cut at EVERY byte by RLIMIT_FSIZE; writers killed by timed SIGKILL or strace signal injection at syscall boundaries, with the on-disk states seen recorded; the same cut applied under a real transport",
    "A Get returning bytes that are not, in full, a value ever Set for the key, an illegal history, or a transport serving a damaged body is a violation.",
    "process kill is not power loss; strace when=N counts per thread (coverage = recorded disk states)", "DESIGN.md 4 C15"),
